@@ -328,3 +328,29 @@ def apalache_outcome(run, sizes, negative=False):
                             "invariant": "PosIsPermutation /\\ PipelineIsRule /\\ OrderOnly", "result": "no error", "wall_s": round(time.time() - t0, 1)})
         results.append(True)
     return results
+
+
+def tlaps_threads(run):
+    """TLAPS proof (unbounded threads and reads) of ModelReadOnly and ResultIsSequential for Threads.tla without the
+    repaired defect.  Auxiliary to the TLC runs of MC_Threads; proved in a scratch copy so that no cache is written to spec/."""
+    import shutil
+    import subprocess
+
+    exe = shutil.which("tlapm")
+    if not exe:
+        run.notes.append("tlapm not found: TLAPS proof of the thread theorems skipped")
+        return None
+    d = os.path.join(run.wd, "tlaps")
+    os.makedirs(d, exist_ok=True)
+    for f in ("Threads.tla", "ThreadsProof.tla"):
+        shutil.copy(os.path.join(tlc.SPEC, f), os.path.join(d, f))
+    t0 = time.time()
+    r = subprocess.run([exe, "--cleanfp", "-I", "/opt/veriftools/tlapm/lib/tlaps", "ThreadsProof.tla"], cwd=d, capture_output=True, text=True, timeout=1800)
+    out = r.stdout + r.stderr
+    m = re.search(r"All (\d+) obligations proved", out)
+    shutil.rmtree(d, ignore_errors=True)
+    if not m:
+        raise MachineryError("TLAPS did not prove ThreadsProof.tla:\n%s" % out[-2000:])
+    run.mc_runs.append({"module": "ThreadsProof", "tool": "tlapm (TLAPS 1.6.0-pre)", "theorems": "ReadOnly, Sequential (any number of threads and reads)",
+                        "obligations": int(m.group(1)), "discharged": int(m.group(1)), "wall_s": round(time.time() - t0, 1)})
+    return int(m.group(1))
